@@ -441,7 +441,22 @@ func runRec(c *Check, rule string, entries []*ssa.Function, only func(*ssa.Funct
 	}
 	comps := g.sccs(keep)
 	c.Counts[rule+"_recursive_sccs"] = len(comps)
+	nBefore := len(c.Obs)
+	seedFrom := func(comp []*ssa.Function) {
+		seed := sccSeed(comp)
+		for _, o := range c.Obs[nBefore:] {
+			if o.ShapeSeed == "" {
+				o.ShapeSeed = seed
+			}
+		}
+		nBefore = len(c.Obs)
+	}
+	var prev []*ssa.Function
 	for _, comp := range comps {
+		if prev != nil {
+			seedFrom(prev)
+		}
+		prev = comp
 		if only != nil {
 			hit := false
 			for _, f := range comp {
@@ -509,6 +524,9 @@ func runRec(c *Check, rule string, entries []*ssa.Function, only func(*ssa.Funct
 			c.Ob(rule, key, pos, Flag, "recursive cycle is neither structural nor listed with a guard in tables/guards.json: "+bad, names...)
 		}
 	}
+	if prev != nil {
+		seedFrom(prev)
+	}
 }
 
 // edgeDescends: the call passes at least one argument that descends (≥1
@@ -523,15 +541,24 @@ func edgeDescends(e recEdge) (bool, string) {
 		if s.Common().IsInvoke() {
 			args = append([]ssa.Value{s.Common().Value}, args...)
 		}
+		// roots handed on unchanged: a value looked up below such a root is not a
+		// smaller structure — the callee holds the whole root again and can look up
+		// anything (an application found by name in the module it also passes on)
+		whole := map[ssa.Value]bool{}
+		for _, a := range args {
+			if r, n, ok := descendsFrom(a, e.From); ok && n == 0 {
+				whole[r] = true
+			}
+		}
 		for _, a := range args {
 			if !isTreeType(a.Type()) {
 				continue
 			}
-			if _, n, ok := descendsFrom(a, e.From); ok && n >= 1 {
+			if r, n, ok := descendsFrom(a, e.From); ok && n >= 1 && !whole[r] {
 				return true, ""
 			}
 		}
-		return false, "no argument is derived from the caller's parameters by descent steps only"
+		return false, "no argument is derived from the caller's parameters by descent steps only (a value found below a parameter that is itself handed on unchanged does not count)"
 	}
 	return false, "call site not visible (edge through a synthetic wrapper)"
 }
@@ -744,6 +771,9 @@ func visitedGuarded(f *ssa.Function, call ssa.Instruction, row *guardRow) (bool,
 			if _, ok := containerCall(i, row, "Insert", "Add", "Push"); ok && instrDominates(i, call) {
 				insert = i
 			}
+			if h := guardHelper(x); h != nil && instrDominates(i, call) && helperInserts(h, row) {
+				insert = i
+			}
 		}
 	})
 	if insert == nil {
@@ -752,6 +782,7 @@ func visitedGuarded(f *ssa.Function, call ssa.Instruction, row *guardRow) (bool,
 	// (i) membership test controlling the call: a Lookup on the container or a Contains/Has method call
 	tested := false
 	var tests []ssa.Value
+	helperPresence := map[ssa.Value]bool{}
 	eachInstr(f, func(_ *ssa.BasicBlock, i ssa.Instruction) {
 		if lk, ok := i.(*ssa.Lookup); ok && containerMatches(lk.X, row) {
 			tests = append(tests, lk)
@@ -759,6 +790,15 @@ func visitedGuarded(f *ssa.Function, call ssa.Instruction, row *guardRow) (bool,
 		if cl, ok := containerCall(i, row, "Contains", "Has"); ok {
 			if v := cl.Value(); v != nil {
 				tests = append(tests, v)
+			}
+		}
+		// a predicate helper: returns the outcome of a look-up in the container
+		if cl, ok := i.(*ssa.Call); ok {
+			if h := guardHelper(cl); h != nil {
+				if isTest, presence := helperTests(h, row); isTest {
+					tests = append(tests, cl)
+					helperPresence[cl] = presence
+				}
 			}
 		}
 	})
@@ -791,7 +831,12 @@ func visitedGuarded(f *ssa.Function, call ssa.Instruction, row *guardRow) (bool,
 			}
 		}
 		_, isLookup := tv.(*ssa.Lookup)
-		walk(tv, 0, !isLookup) // Contains/Has: presence; plain look-up: value
+		if pr, isHelper := helperPresence[tv]; isHelper {
+			conds = append(conds, cond{tv, pr})
+			walk(tv, 0, pr)
+		} else {
+			walk(tv, 0, !isLookup) // Contains/Has: presence; plain look-up: value
+		}
 		for _, cv := range conds {
 			for _, br := range branchesOn(cv.v) {
 				t := blockReaches(br.TrueSucc, call.Block(), nil)
@@ -835,6 +880,9 @@ func visitedGuarded(f *ssa.Function, call ssa.Instruction, row *guardRow) (bool,
 				if _, ok := containerCall(i, row, "Remove", "Delete", "Pop"); ok {
 					return true
 				}
+				if h := guardHelper(x); h != nil && helperReleases(h, row, byPresence) {
+					return true
+				}
 			}
 			return false
 		}
@@ -843,6 +891,9 @@ func visitedGuarded(f *ssa.Function, call ssa.Instruction, row *guardRow) (bool,
 		eachInstr(f, func(_ *ssa.BasicBlock, i ssa.Instruction) {
 			if d, ok := i.(*ssa.Defer); ok && instrDominates(d, call) {
 				if _, ok := containerCall(d, row, "Remove", "Delete", "Pop"); ok {
+					deferred = true
+				}
+				if h := normFnOf(d.Call.StaticCallee()); h != nil && isRepoFn(h) && len(h.Blocks) > 0 && helperReleases(h, row, byPresence) {
 					deferred = true
 				}
 			}
@@ -1036,34 +1087,48 @@ func autoGuard(comp []*ssa.Function, in map[*ssa.Function]bool, g *repoGraph, re
 	return false, why
 }
 
+// acyclicWithout: once the guard function is taken out, what is left of the
+// component has no cycle except cycles made of structural edges only (each of
+// which descends a finite tree: between two passes through the guard they end).
 func acyclicWithout(comp []*ssa.Function, in map[*ssa.Function]bool, g *repoGraph, skip *ssa.Function) bool {
-	state := map[*ssa.Function]int{}
-	var visit func(f *ssa.Function) bool
-	visit = func(f *ssa.Function) bool {
-		switch state[f] {
-		case 1:
-			return false
-		case 2:
-			return true
-		}
-		state[f] = 1
-		for _, e := range g.succ[f] {
-			if !in[e.To] || e.To == skip {
-				continue
+	reach := func(from, to *ssa.Function) bool {
+		seen := map[*ssa.Function]bool{}
+		var visit func(f *ssa.Function) bool
+		visit = func(f *ssa.Function) bool {
+			if f == to {
+				return true
 			}
-			if !visit(e.To) {
+			if seen[f] {
 				return false
 			}
+			seen[f] = true
+			for _, e := range g.succ[f] {
+				if !in[e.To] || e.To == skip {
+					continue
+				}
+				if visit(e.To) {
+					return true
+				}
+			}
+			return false
 		}
-		state[f] = 2
-		return true
+		return visit(from)
 	}
 	for _, f := range comp {
 		if f == skip {
 			continue
 		}
-		if !visit(f) {
-			return false
+		for _, e := range g.succ[f] {
+			if !in[e.To] || e.To == skip {
+				continue
+			}
+			if ok, _ := edgeDescends(e); ok {
+				continue
+			}
+			// a non-structural edge must not lie on a cycle that avoids the guard
+			if reach(e.To, f) {
+				return false
+			}
 		}
 	}
 	return true
@@ -1190,4 +1255,157 @@ func helperGuarded(p *Program, f *ssa.Function, call ssa.Instruction) (bool, str
 		return false, "no test-and-set helper result controls the call"
 	}
 	return true, why
+}
+
+// ---- guard helpers: enter / leave / isVisiting methods -------------------------
+
+func normFnOf(f *ssa.Function) *ssa.Function { return f }
+
+// guardHelper: the static callee of a call when it is a small repository
+// function that could hold one step of a visited guard.
+func guardHelper(cl *ssa.Call) *ssa.Function {
+	h := cl.Call.StaticCallee()
+	if h == nil || !isRepoFn(h) || len(h.Blocks) == 0 || len(h.Blocks) > 12 {
+		return nil
+	}
+	return h
+}
+
+// helperInserts: every path through h performs an insertion into the container.
+func helperInserts(h *ssa.Function, row *guardRow) bool {
+	var ins []ssa.Instruction
+	eachInstr(h, func(_ *ssa.BasicBlock, i ssa.Instruction) {
+		switch x := i.(type) {
+		case *ssa.MapUpdate:
+			if containerMatches(x.Map, row) {
+				if b, ok := x.Value.(*ssa.BinOp); ok && b.Op == token.SUB {
+					return
+				}
+				if k, ok := x.Value.(*ssa.Const); ok && isZeroConst(k) {
+					return
+				}
+				ins = append(ins, i)
+			}
+		case *ssa.Store:
+			if containerMatches(x.Addr, row) {
+				if cl, ok := x.Val.(*ssa.Call); ok {
+					if b, ok := cl.Call.Value.(*ssa.Builtin); ok && b.Name() == "append" {
+						ins = append(ins, i)
+					}
+				}
+			}
+		case *ssa.Call:
+			if _, ok := containerCall(i, row, "Insert", "Add", "Push"); ok {
+				ins = append(ins, i)
+			}
+		}
+	})
+	for _, i := range ins {
+		all := true
+		for _, b := range h.Blocks {
+			if _, ok := b.Instrs[len(b.Instrs)-1].(*ssa.Return); ok && b != h.Recover {
+				if !(i.Block() == b || i.Block().Dominates(b)) {
+					all = false
+				}
+			}
+		}
+		if all {
+			return true
+		}
+	}
+	return false
+}
+
+// helperTests: h returns a bool computed from one look-up in the container.
+// presence: the comma-ok flag or Contains/Has; otherwise a comparison of the value.
+func helperTests(h *ssa.Function, row *guardRow) (bool, bool) {
+	if h.Signature.Results().Len() != 1 || !isBoolType(h.Signature.Results().At(0).Type()) {
+		return false, false
+	}
+	found, presence := false, false
+	for _, b := range h.Blocks {
+		ret, ok := b.Instrs[len(b.Instrs)-1].(*ssa.Return)
+		if !ok || b == h.Recover {
+			continue
+		}
+		vals, _ := returnValues(ret)
+		var visit func(v ssa.Value, d int)
+		seen := map[ssa.Value]bool{}
+		visit = func(v ssa.Value, d int) {
+			if v == nil || seen[v] || d > 6 {
+				return
+			}
+			seen[v] = true
+			switch x := v.(type) {
+			case *ssa.Extract:
+				if lk, ok := x.Tuple.(*ssa.Lookup); ok && containerMatches(lk.X, row) {
+					found = true
+					if x.Index == 1 {
+						presence = true
+					}
+				}
+			case *ssa.BinOp:
+				visit(x.X, d+1)
+				visit(x.Y, d+1)
+			case *ssa.UnOp:
+				visit(x.X, d+1)
+			case *ssa.Phi:
+				for _, e := range x.Edges {
+					visit(e, d+1)
+				}
+			case *ssa.Lookup:
+				if containerMatches(x.X, row) {
+					found = true
+				}
+			case *ssa.Call:
+				if _, ok := containerCall(x, row, "Contains", "Has"); ok {
+					found, presence = true, true
+				}
+			}
+		}
+		visit(vals[0], 0)
+	}
+	return found, presence
+}
+
+// helperReleases: h removes the mark — delete/Remove, or the counter idiom
+// (decrement, with the delete of the emptied entry when the test is by presence),
+// or a zero store for a test by value.
+func helperReleases(h *ssa.Function, row *guardRow, byPresence bool) bool {
+	released := false
+	eachInstr(h, func(_ *ssa.BasicBlock, i ssa.Instruction) {
+		switch x := i.(type) {
+		case *ssa.MapUpdate:
+			if !containerMatches(x.Map, row) {
+				return
+			}
+			if b, ok := x.Value.(*ssa.BinOp); ok && b.Op == token.SUB {
+				if !byPresence || hasDelete(h, row) {
+					released = true
+				}
+			}
+			if k, ok := x.Value.(*ssa.Const); ok && isZeroConst(k) && !byPresence {
+				released = true
+			}
+		case *ssa.Call:
+			if b, ok := x.Call.Value.(*ssa.Builtin); ok && b.Name() == "delete" && len(x.Call.Args) > 0 && containerMatches(x.Call.Args[0], row) {
+				// an unconditional delete, or the delete-at-zero of the counter idiom
+				dec := false
+				eachInstr(h, func(_ *ssa.BasicBlock, j ssa.Instruction) {
+					if mu, ok := j.(*ssa.MapUpdate); ok && containerMatches(mu.Map, row) {
+						if b, ok := mu.Value.(*ssa.BinOp); ok && b.Op == token.SUB {
+							dec = true
+						}
+					}
+				})
+				if dec || x.Block() == h.Blocks[0] {
+					released = true
+				}
+			}
+			if _, ok := containerCall(i, row, "Remove", "Delete", "Pop"); ok {
+				released = true
+			}
+		}
+	})
+	return released
 }
